@@ -494,7 +494,29 @@ type c07outcome struct {
 	class        string // ok | cyclic-error | skipped
 }
 
-func c07judge(w *report.W, text string) c07outcome {
+func c07judge(w *report.W, text string) c07outcome { return c07judgeLim(w, text, report.HangAfter) }
+
+// c07layered is the family of layered ("diamond") merges: layer i merges two
+// earlier layers (the two before it, or the one before it twice) and adds one
+// key. The expanded size is quadratic in the number of layers, so is the
+// decoder's work if every mapping is resolved once per use; an implementation
+// that re-walks a shared layer once per merge path needs Fibonacci / 2^n steps.
+func c07layered(layers int, twice bool) string {
+	var b strings.Builder
+	b.WriteString("l0: &l0 {k0: v0}\n")
+	for i := 1; i < layers; i++ {
+		prev2 := i - 2
+		if twice || prev2 < 0 {
+			prev2 = i - 1
+		}
+		fmt.Fprintf(&b, "l%d: &l%d {<<: [*l%d, *l%d], k%d: v%d}\n", i, i, i-1, prev2, i, i)
+	}
+	return b.String()
+}
+
+var c07layerCounts = []int{2, 3, 4, 5, 6, 8, 12, 16, 24, 32, 48, 64, 80}
+
+func c07judgeLim(w *report.W, text string, limit time.Duration) c07outcome {
 	var doc yaml.Node
 	if err := yaml.Unmarshal([]byte(text), &doc); err != nil {
 		return c07outcome{class: "skipped:" + strings.SplitN(err.Error(), ":", 2)[0]}
@@ -508,7 +530,7 @@ func c07judge(w *report.W, text string) c07outcome {
 	var got any
 	var gerr error
 	if w != nil {
-		w.Guard(text)
+		w.GuardFor(text, limit)
 		defer w.Unguard()
 	}
 	if pan := report.Catch(func() { got, gerr = ordered.DecodeYAML(&doc) }); pan != "" {
@@ -586,6 +608,15 @@ var c07fixed = []string{
 	"l: &l [1, 2]\nm: {p: *l, q: *l}\nn: [*l, *l]\n",
 	"s: &s {t: &t {u: 1}}\nv: {one: *t, two: *s, three: *t}\n",
 	"1: &n one\n0x1: two\ntrue: three\nm: {<<: {1: x, yes: y}}\n",
+	// a value cycle that closes through a merge: an un-anchored descendant merges its anchored ancestor
+	"a: &a {c: {<<: *a}}\n",
+	"a: &a {c: {<<: [*a]}, k: 1}\n",
+	"a: &a {c: [{<<: *a}]}\n",
+	"a: &a {c: [1, [{d: 2, <<: *a}]]}\n",
+	"a: &a {b: {c: {<<: *a}}}\n",
+	"a: &a [{<<: {k: *a}}]\n",
+	"a: &a {k: 1}\nb: &b {c: {<<: [*a, *b]}}\n",
+	"a: &a {p: {<<: *b}}\nb: &b {q: {<<: *a}}\n",
 }
 
 func c07run(w *report.W) {
@@ -617,6 +648,39 @@ func c07run(w *report.W) {
 	for i, t := range c07fixed {
 		runText(t, fmt.Sprintf("fixed #%d", i), 5)
 	}
+	// layered merges: 2..80 layers in both shapes; each decodes in well under a second when every layer is resolved once
+	for _, n := range c07layerCounts {
+		for _, twice := range []bool{false, true} {
+			text := c07layered(n, twice)
+			if !w.Take(text) {
+				continue
+			}
+			w.P.Evaluations++
+			o := c07judgeLim(w, text, 90*time.Second)
+			cl := "layered:" + o.class
+			if o.kind != "" {
+				cl = "VIOLATION:" + o.kind
+				w.Violate(report.Violation{Kind: o.kind, Case: fmt.Sprintf("%d layered merges (twice=%v): %s", n, twice, text), Detail: o.detail, Size: 5 + n, Replay: text})
+			}
+			w.P.Nontrivial++
+			classes[cl]++
+			w.Obs(cl)
+		}
+	}
+	if !w.Thorough() {
+		// one level deeper with one deviation fewer
+		ex0 := &explore.Explorer{Bound: bound - 1}
+		ex0.Run = func(x *explore.X) bool {
+			g := &c07gen{x: x, depthMx: depth + 1}
+			text := g.doc()
+			runText(text, strings.Join(g.trace, " "), 10*len(g.trace)+len(text)/20)
+			return true
+		}
+		ex0.Explore()
+		if w.Shard == 0 {
+			w.P.Bounds["grammar_deeper"] = fmt.Sprintf("deviations<=%d, nesting depth<=%d, %d choice sequences", bound-1, depth+2, ex0.Stats.Executions)
+		}
+	}
 	ex := &explore.Explorer{Bound: bound}
 	ex.Run = func(x *explore.X) bool {
 		execs++
@@ -644,7 +708,7 @@ func init() {
 		Rule: "documents are programs of choices over an anchor/alias/merge grammar: 2-4 top-level entries, each a scalar / alias / mapping / sequence, optionally anchored with one of three names " +
 			"(names may be reused, i.e. redefined); mappings have explicit keys a, b with nested nodes, an alias-as-key entry and three merge slots (before, between, after the explicit keys), each merge an alias, " +
 			"a sequence of aliases in either order, a nested sequence, an inline mapping or a mix; aliases may point backwards, forwards (rejected by the YAML parser and skipped) or to enclosing nodes " +
-			"(self / mutual cycles through values, sequences, keys and merges); enumerated with <=4 (quick) / <=5 (thorough) deviations from a default document that already anchors, aliases and merges, plus 19 hand-written deep shapes. " +
+			"(self / mutual cycles through values, sequences, keys and merges); enumerated with <=4 (quick) / <=5 (thorough) deviations from a default document that already anchors, aliases and merges, plus 27 hand-written deep shapes (value cycles closing through values, sequences, keys and merges of anchored ancestors) and layered merges of 2..80 layers (each layer merging the two before it / the one before it twice), which must decode within 90 s (they take milliseconds). " +
 			"ordered.DecodeYAML and yaml.Unmarshal into *ordered.MapSA are compared with a two-phase reference (pure per-mapping merge resolution, then containment-cycle detection and expansion) on " +
 			"yaml.v3's node graph: content and order, independent copies (no shared mapping/sequence objects), value cycle => error, merge cycle tolerated, no panic / fatal crash / hang. " +
 			"Non-trivial = the document contains at least one alias and was compared in full (content, order, independence). Documents whose merge cycle runs through a sequence or several mappings, or that repeat an explicit key, are only checked for no panic / crash / hang.",
